@@ -24,4 +24,5 @@ func init() {
 	register("C06", "exploration", C06)
 	register("C17", "exploration", C17)
 	register("C01", "exploration", C01)
+	register("C02", "exploration", C02)
 }
